@@ -318,6 +318,11 @@ long long c_delineate_boundary(long long nrows, long long ncols,
                 break;
         }
 
+        /* No other boundary cell was found (single cell
+         * or duplicated cell numbers): the boundary is complete */
+        if(knext<0)
+            break;
+
         /* Iterate if we have a neighbour */
         buffer[knext] = -1;
         idxcell = next;
